@@ -719,6 +719,7 @@ package genql
 
 // C09: what the steps mean, clause by clause
 //@ func SelectDimension
+//@   modifies nothing
 //@   ensures index-in-range[C09]: len(dimensions) == 1 && typeis(data, []any) && dimensions[0] != nil && dimensions[0].selectorType == INDEX &&
 //@     | dimensions[0].indexSelector >= 0 && dimensions[0].indexSelector < len(data.([]any)) ==> err == nil && result == data.([]any)[dimensions[0].indexSelector]
 //@ func ReadIndex
@@ -731,13 +732,11 @@ package genql
 //@   ensures index[C09]: result != nil && fresh(result) && result.selectorType == INDEX && result.indexSelector == value
 //@ func NewIndex[[2]int]
 //@   ensures range[C09]: result != nil && fresh(result) && result.selectorType == RANGE
-//@ func ReaderExecutor
-//@   ensures unknown-function[C09]: len(selectors) > 0 && typeis(selectors[0], TopLevelFunctionSelector) && !has(topLevelFunctions, string(selectors[0].(TopLevelFunctionSelector))) ==> err != nil && result == nil
 //@ func Reader
-//@   ensures key-on-a-scalar[C09]: len(selectors) > 0 && typeis(selectors[0], KeySelector) && (typeis(data, float64) || typeis(data, string) || typeis(data, bool)) ==> err != nil && result == nil
-//@   ensures index-on-a-non-array[C09]: len(selectors) > 0 && (typeis(selectors[0], []*IndexSelector) || typeis(selectors[0], KeepDimension)) && (typeis(data, float64) || typeis(data, string) || typeis(data, bool) || typeis(data, map[string]any)) ==> err != nil && result == nil
-//@   ensures missing-key[C09]: len(selectors) == 1 && typeis(selectors[0], KeySelector) && typeis(data, map[string]any) && !has(data.(map[string]any), string(selectors[0].(KeySelector))) ==> err == nil && result == nil
-//@   ensures present-key[C09]: len(selectors) == 1 && typeis(selectors[0], KeySelector) && typeis(data, map[string]any) && has(data.(map[string]any), string(selectors[0].(KeySelector))) ==> err == nil && result == data.(map[string]any)[string(selectors[0].(KeySelector))]
+//@   ensures key-on-a-scalar[C09]: len(selectors) > 0 && old(typeis(selectors[0], KeySelector)) && (typeis(data, float64) || typeis(data, string) || typeis(data, bool)) ==> err != nil && result == nil
+//@   ensures index-on-a-non-array[C09]: len(selectors) > 0 && old(typeis(selectors[0], []*IndexSelector) || typeis(selectors[0], KeepDimension)) && (typeis(data, float64) || typeis(data, string) || typeis(data, bool) || typeis(data, map[string]any)) ==> err != nil && result == nil
+//@   ensures missing-key[C09]: len(selectors) == 1 && old(typeis(selectors[0], KeySelector)) && typeis(data, map[string]any) && old(!has(data.(map[string]any), string(selectors[0].(KeySelector)))) ==> err == nil && result == nil
+//@   ensures present-key[C09]: len(selectors) == 1 && old(typeis(selectors[0], KeySelector)) && typeis(data, map[string]any) && old(has(data.(map[string]any), string(selectors[0].(KeySelector)))) ==> err == nil && result == old(data.(map[string]any)[string(selectors[0].(KeySelector))])
 //@ func Mix
 //@   ensures scalar[C09]: !typeis(data, []any) && !typeis(data, map[string]any) ==> err != nil && result == nil
 //@ func Distinct
